@@ -8,9 +8,14 @@
 //!
 //!   x-scale <check> <shape|target> <n> [<m>|<extra>]
 //!
-//! checks (property):  ttape (C01,C06)  btape (C03,C06)  tread (C07)  bread (C08)  tskip bskip (C09)
-//!   tde (C02)  bde (C04)  x10 (C10)  dom (C17)  derive (C18)  wtape (C14)  wcalls (C15)  json (C16)
+//! checks (property):  ttape (C01,C06)  btape (C03,C06)  tread (C07)  bread (C08)  tskip tskipu bskip (C09)
+//!   tde (C02)  bde (C04)  x10 (C10)  dom (C17)  derive (C18)  wtape (C14)  wcalls (C15)  json jsonnum (C16)
 //!   num (C11)  decode (C12)  date (C13)  trunc (C19)  fault (C20); C05 runs a sample of all of them.
+//! shapes: see `build`; targets of the deserializer checks: see `op_de`; grids per property: `gen_for`.
+//! violation kinds: scale-tape-mismatch, scale-tape-structure, scale-stream-mismatch, scale-bufferfull-missing,
+//!   scale-bufferfull-spurious, scale-position, scale-token-write, scale-skip-lands-wrong, scale-paths-disagree, scale-dom,
+//!   scale-json, scale-writer, scale-writer-roundtrip, scale-writer-indent, scale-writer-depth, scale-number, scale-decode,
+//!   scale-date, scale-truncated-ok, scale-fault-not-io, scale-fault-wrong-tokens (first difference only in the detail).
 //! Every op runs in a thread with a 256 MiB stack (deep shapes) and under the harness's catch_unwind.
 #![allow(dead_code)]
 use crate::common::*;
